@@ -150,7 +150,8 @@ pub fn random(args: &Args) {
     let runs = args.usize("runs", 20);
     let nservers = args.usize("servers", 1);
     let mut t = Trace::create(&args.str("out", ""));
-    let names = ["a.example.org", "b.example.org", "www.smoltcp.net"];
+    // (the last name is resolved by multicast DNS: first the IPv6 group, after 10 s the IPv4 group)
+    let names = ["a.example.org", "b.example.org", "www.smoltcp.net", "printer.local"];
     for run in 0..runs {
         let mut rng = Rng::new(seed0.wrapping_mul(13_000_003).wrapping_add(run as u64));
         let mut dev = QDev::new(Medium::Ip, 1500);
@@ -159,6 +160,7 @@ pub fn random(args: &Args) {
         let mut iface = Interface::new(c, &mut dev, Instant::from_millis(0));
         iface.update_ip_addrs(|a| {
             a.push(IpCidr::new(IpAddress::v4(10, 0, 0, 1), 24)).unwrap();
+            a.push(IpCidr::new(IpAddress::v6(0xfd00, 0, 0, 0, 0, 0, 0, 1), 64)).unwrap();
         });
         let servers: Vec<IpAddress> = (0..nservers).map(|k| IpAddress::v4(10, 0, 0, 53 + k as u8)).collect();
         let sock = dns::Socket::new(&servers, vec![None, None]);
@@ -175,7 +177,7 @@ pub fn random(args: &Args) {
             if q == 1 && start2 > now {
                 break;
             }
-            let name = names[rng.below(3) as usize];
+            let name = names[if rng.chance(25) { 3 } else { rng.below(3) as usize }];
             let r = sockets.get_mut::<dns::Socket>(h).start_query(iface.context(), name, DnsQueryType::A);
             t.ev(json!({"ev":"api","now":now,"call":"start","q":q,"name":name,"ok":r.is_ok()}));
             started += 1;
@@ -192,7 +194,7 @@ pub fn random(args: &Args) {
         while now < horizon && steps < 400 && (handles.iter().any(|x| x.3) || started < nq) {
             steps += 1;
             if started < nq && now >= start2 {
-                let name = names[rng.below(3) as usize];
+                let name = names[if rng.chance(25) { 3 } else { rng.below(3) as usize }];
                 let r = sockets.get_mut::<dns::Socket>(h).start_query(iface.context(), name, DnsQueryType::A);
                 t.ev(json!({"ev":"api","now":now,"call":"start","q":1,"name":name,"ok":r.is_ok()}));
                 started += 1;
@@ -258,8 +260,14 @@ pub fn random(args: &Args) {
                 if mode == 1 {
                     continue;
                 }
+                if ip.dst.len() != 4 {
+                    // the IPv6 phase of a multicast query: nobody answers there
+                    continue;
+                }
                 let mut dst_ip = [0u8; 4];
                 dst_ip.copy_from_slice(&ip.dst);
+                // a multicast query is answered by a neighbour from its own address and the mDNS port
+                let (dst_ip, srv_port): ([u8; 4], u16) = if *dport == 5353 { ([10, 0, 0, 77], 5353) } else { (dst_ip, 53) };
                 let delay = rng.range(1, 400) as i64;
                 if honest {
                     let rrs = match rng.below(4) {
@@ -272,7 +280,7 @@ pub fn random(args: &Args) {
                                   Rr { name: name.clone(), ptr: true, ty: 1, a: [7, 7, 7, 7], cname: String::new() }],
                     };
                     let m = dns_msg(id, 0x8180, &name, qt, 1, &rrs, None, 0);
-                    pending.push((now + delay, ipv4_packet(dst_ip, [10, 0, 0, 1], 17, 1, 64, &udp_datagram(53, *sport, &m), true)));
+                    pending.push((now + delay, ipv4_packet(dst_ip, [10, 0, 0, 1], 17, 1, 64, &udp_datagram(srv_port, *sport, &m), true)));
                 } else {
                     // hostile variants: each must NOT complete the query with an address
                     let v = rng.below(19);
@@ -286,38 +294,38 @@ pub fn random(args: &Args) {
                         let l = m1.len();
                         m1.truncate(l - 3);
                         let m2 = dns_msg(id, 0x8180, &target, qt, 1, &[Rr { name: target.clone(), ptr: true, ty: 1, a: [66, 66, 66, 66], cname: String::new() }], None, 0);
-                        pending.push((now + delay, ipv4_packet(dst_ip, [10, 0, 0, 1], 17, 1, 64, &udp_datagram(53, *sport, &m1), true)));
-                        pending.push((now + delay + rng.range(1, 50) as i64, ipv4_packet(dst_ip, [10, 0, 0, 1], 17, 1, 64, &udp_datagram(53, *sport, &m2), true)));
+                        pending.push((now + delay, ipv4_packet(dst_ip, [10, 0, 0, 1], 17, 1, 64, &udp_datagram(srv_port, *sport, &m1), true)));
+                        pending.push((now + delay + rng.range(1, 50) as i64, ipv4_packet(dst_ip, [10, 0, 0, 1], 17, 1, 64, &udp_datagram(srv_port, *sport, &m2), true)));
                         continue;
                     }
                     let good = vec![Rr { name: name.clone(), ptr: true, ty: 1, a: [66, 66, 66, 66], cname: String::new() }];
                     let (mid, mflags, mname, mqt, qd, rrs, trunc, evil, src, sp, dp): (u16, u16, String, u16, u16, Vec<Rr>, Option<usize>, u8, [u8; 4], u16, u16) = match v {
-                        0 => (id ^ 1, 0x8180, name.clone(), qt, 1, good, None, 0, dst_ip, 53, *sport),                 // wrong transaction id
-                        1 => (id, 0x8180, name.clone(), qt, 1, good, None, 0, dst_ip, 53, sport.wrapping_add(1)),      // wrong destination port
+                        0 => (id ^ 1, 0x8180, name.clone(), qt, 1, good, None, 0, dst_ip, srv_port, *sport),                 // wrong transaction id
+                        1 => (id, 0x8180, name.clone(), qt, 1, good, None, 0, dst_ip, srv_port, sport.wrapping_add(1)),      // wrong destination port
                         2 => (id, 0x8180, name.clone(), qt, 1, good, None, 0, [10, 0, 0, 99], 53, *sport),             // not a configured server
                         3 => (id, 0x8180, name.clone(), qt, 1, good, None, 0, dst_ip, 54, *sport),                     // wrong source port
-                        4 => (id, 0x8180, "evil.example.org".into(), qt, 1, vec![Rr { name: "evil.example.org".into(), ptr: true, ty: 1, a: [66, 66, 66, 66], cname: String::new() }], None, 0, dst_ip, 53, *sport), // other question
-                        5 => (id, 0x8180, name.clone(), 28, 1, good, None, 0, dst_ip, 53, *sport),                     // other question type
-                        6 => (id, 0x0100, name.clone(), qt, 1, good, None, 0, dst_ip, 53, *sport),                     // not a response (QR clear)
-                        7 => (id, 0x8180, name.clone(), qt, 1, good, Some(rng.range(0, 40) as usize), 0, dst_ip, 53, *sport), // truncated
-                        8 => (id, 0x8180, name.clone(), qt, 1, good, None, 1, dst_ip, 53, *sport),                     // self-referential owner pointer
-                        9 => (id, 0x8180, name.clone(), qt, 1, good, None, 2, dst_ip, 53, *sport),                     // forward owner pointer
-                        10 => (id, 0x8180, name.clone(), qt, 1, vec![Rr { name: "other.example.org".into(), ptr: false, ty: 1, a: [66, 66, 66, 66], cname: String::new() }], None, 0, dst_ip, 53, *sport), // only foreign records
+                        4 => (id, 0x8180, "evil.example.org".into(), qt, 1, vec![Rr { name: "evil.example.org".into(), ptr: true, ty: 1, a: [66, 66, 66, 66], cname: String::new() }], None, 0, dst_ip, srv_port, *sport), // other question
+                        5 => (id, 0x8180, name.clone(), 28, 1, good, None, 0, dst_ip, srv_port, *sport),                     // other question type
+                        6 => (id, 0x0100, name.clone(), qt, 1, good, None, 0, dst_ip, srv_port, *sport),                     // not a response (QR clear)
+                        7 => (id, 0x8180, name.clone(), qt, 1, good, Some(rng.range(0, 40) as usize), 0, dst_ip, srv_port, *sport), // truncated
+                        8 => (id, 0x8180, name.clone(), qt, 1, good, None, 1, dst_ip, srv_port, *sport),                     // self-referential owner pointer
+                        9 => (id, 0x8180, name.clone(), qt, 1, good, None, 2, dst_ip, srv_port, *sport),                     // forward owner pointer
+                        10 => (id, 0x8180, name.clone(), qt, 1, vec![Rr { name: "other.example.org".into(), ptr: false, ty: 1, a: [66, 66, 66, 66], cname: String::new() }], None, 0, dst_ip, srv_port, *sport), // only foreign records
                         // names that are label-wise prefixes / extensions of the queried name
-                        11 => { let q2 = name.split('.').next().unwrap().to_string(); (id, 0x8180, q2.clone(), qt, 1, vec![Rr { name: q2, ptr: true, ty: 1, a: [66, 66, 66, 66], cname: String::new() }], None, 0, dst_ip, 53, *sport) }
-                        12 => { let q2 = format!("{}.evil.net", name); (id, 0x8180, q2.clone(), qt, 1, vec![Rr { name: q2, ptr: true, ty: 1, a: [66, 66, 66, 66], cname: String::new() }], None, 0, dst_ip, 53, *sport) }
-                        13 => (id, 0x8180, name.clone(), qt, 1, vec![Rr { name: format!("{}.evil.net", name), ptr: false, ty: 1, a: [66, 66, 66, 66], cname: String::new() }], None, 0, dst_ip, 53, *sport),
-                        14 => (id, 0x8180, name.clone(), qt, 1, vec![Rr { name: name.split('.').next().unwrap().to_string(), ptr: false, ty: 1, a: [66, 66, 66, 66], cname: String::new() }], None, 0, dst_ip, 53, *sport),
+                        11 => { let q2 = name.split('.').next().unwrap().to_string(); (id, 0x8180, q2.clone(), qt, 1, vec![Rr { name: q2, ptr: true, ty: 1, a: [66, 66, 66, 66], cname: String::new() }], None, 0, dst_ip, srv_port, *sport) }
+                        12 => { let q2 = format!("{}.evil.net", name); (id, 0x8180, q2.clone(), qt, 1, vec![Rr { name: q2, ptr: true, ty: 1, a: [66, 66, 66, 66], cname: String::new() }], None, 0, dst_ip, srv_port, *sport) }
+                        13 => (id, 0x8180, name.clone(), qt, 1, vec![Rr { name: format!("{}.evil.net", name), ptr: false, ty: 1, a: [66, 66, 66, 66], cname: String::new() }], None, 0, dst_ip, srv_port, *sport),
+                        14 => (id, 0x8180, name.clone(), qt, 1, vec![Rr { name: name.split('.').next().unwrap().to_string(), ptr: false, ty: 1, a: [66, 66, 66, 66], cname: String::new() }], None, 0, dst_ip, srv_port, *sport),
                         // a CNAME owned by a foreign name (not on the chain from the queried name) and an address for its target,
                         // alone / in front of / behind a genuine record for the queried name
                         15 => (id, 0x8180, name.clone(), qt, 1, vec![Rr { name: "other.example.org".into(), ptr: false, ty: 5, a: [0; 4], cname: "alias.evil.net".into() },
-                                                                       Rr { name: "alias.evil.net".into(), ptr: false, ty: 1, a: [66, 66, 66, 66], cname: String::new() }], None, 0, dst_ip, 53, *sport),
+                                                                       Rr { name: "alias.evil.net".into(), ptr: false, ty: 1, a: [66, 66, 66, 66], cname: String::new() }], None, 0, dst_ip, srv_port, *sport),
                         16 => (id, 0x8180, name.clone(), qt, 1, vec![Rr { name: "other.example.org".into(), ptr: false, ty: 5, a: [0; 4], cname: "alias.evil.net".into() },
                                                                        Rr { name: "alias.evil.net".into(), ptr: false, ty: 1, a: [66, 66, 66, 66], cname: String::new() },
-                                                                       Rr { name: name.clone(), ptr: true, ty: 1, a: [1, 2, 3, 4], cname: String::new() }], None, 0, dst_ip, 53, *sport),
+                                                                       Rr { name: name.clone(), ptr: true, ty: 1, a: [1, 2, 3, 4], cname: String::new() }], None, 0, dst_ip, srv_port, *sport),
                         _ => (id, 0x8180, name.clone(), qt, 1, vec![Rr { name: name.clone(), ptr: true, ty: 1, a: [1, 2, 3, 4], cname: String::new() },
                                                                      Rr { name: "other.example.org".into(), ptr: false, ty: 5, a: [0; 4], cname: "alias.evil.net".into() },
-                                                                     Rr { name: "alias.evil.net".into(), ptr: false, ty: 1, a: [66, 66, 66, 66], cname: String::new() }], None, 0, dst_ip, 53, *sport),
+                                                                     Rr { name: "alias.evil.net".into(), ptr: false, ty: 1, a: [66, 66, 66, 66], cname: String::new() }], None, 0, dst_ip, srv_port, *sport),
                     };
                     let m = dns_msg(mid, mflags, &mname, mqt, qd, &rrs, trunc, evil);
                     pending.push((now + delay, ipv4_packet(src, [10, 0, 0, 1], 17, 1, 64, &udp_datagram(sp, dp, &m), true)));
